@@ -32,6 +32,7 @@ RULE = ("(a) enumerated, always complete for the tier's dtype set (quick: bool,"
         "being stricter is not a violation.  non-trivial = both accept and "
         "(operand dtypes differ or shapes broadcast or the index is not ':'),"
         " or NumPy rejects; distinct by call description")
+RULE += '  Round-4 addition: eye(N, M, k) over N in {0,1,3}, M in {None,0,1,4}, k in {-2,0,1,5} (shape only).'
 ASSUMPTIONS = [
     "installed NumPy's promotion rules (NEP 50); Python scalars are passed as "
     "Python scalars to both sides",
